@@ -81,7 +81,7 @@ theorem finish_spec (s : St) (id : Nat) (n : Bool) (k : ExitKind) :
       | .ret => push s n id 0
       | .err c => push s n id c
       | .panic => push { s with reports := s.reports ++ [.handlerPanic id] } n id specCodes.internalError := by
-  cases k <;> simp [finish, specOffFacts]
+  cases k <;> simp [finish, pushReply, specOffFacts]
 
 theorem step_spec (s : St) (hf : Free s) (ev : Ev) : step specOffFacts s ev = stepSpec s ev := by
   obtain ⟨hb, _⟩ := hf
@@ -99,7 +99,7 @@ theorem step_spec (s : St) (hf : Free s) (ev : Ev) : step specOffFacts s ev = st
         by_cases hp : s.permits < c
         · simp [hp, spawn, specOffFacts]
         · simp only [hp, if_false]
-          cases hn : a.notify <;> simp [specOffFacts, push]
+          cases hn : a.notify <;> simp [specOffFacts, push, pushReply]
   | exit id k =>
     simp only [step, hb, stepSpec]
     cases ht : takeRun id s.running with
